@@ -6,7 +6,7 @@ their own logic (sqlfluff's lexer and parser are not modelled — DESIGN §3; th
 between these layers and the result, is covered by the metamorphic differential of `harness/c07.py`):
 
   §1  filtering      `list_child_segments` (both branches), `extract_identifier`, merge's `segments[i + 1]`,
-                     `SqlFluffTable.of` (repaired, D30): whitespace / comment / meta segments inserted between the children
+                     `SqlFluffTable.of` (repaired, D40): whitespace / comment / meta segments inserted between the children
                      of a segment — or at every depth of the tree (`strip`) — never change what the extractors see
   §2  keywords       `raw_upper in [...]` does not depend on the letter case of `raw`, for every keyword of the
                      regenerated tables `Gen.Dispatch.keywords*`
@@ -149,7 +149,7 @@ theorem nextSegment_noise (ns : Nat → List Noise) (s : Seg) (i : Nat) :
     nextSegment (insertNoise ns s) i = nextSegment s i := by
   unfold nextSegment; rw [negligible_filter]
 
-/-- `SqlFluffTable.of` with the repair D30: schema parts and table name do not depend on noise between the parts -/
+/-- `SqlFluffTable.of` with the repair D40: schema parts and table name do not depend on noise between the parts -/
 theorem tableParts_noise (ns : Nat → List Noise) (t : Seg) : tableParts (insertNoise ns t) = tableParts t := by
   obtain ⟨ht, hr, hk⟩ := insertNoise_fields ns t
   have hflag : ∀ i, ∀ x ∈ (ns i).map Noise.toSeg, (!(x.isWhitespace || x.isComment || x.isMeta)) = false := by
@@ -157,9 +157,9 @@ theorem tableParts_noise (ns : Nat → List Noise) (t : Seg) : tableParts (inser
   unfold tableParts tablePartsOf
   rw [hk, filter_interleave _ _ hflag, ht, hr]
 
-/-- D30 (the code before the repair counted positions over the raw child list): a blank after the dot of `s.t` makes the
+/-- D40 (the code before the repair counted positions over the raw child list): a blank after the dot of `s.t` makes the
     blank the table name.  T-SQL's grammar admits such gaps; replayed on the real code by `harness/c07.py`. -/
-theorem dev_D30 :
+theorem dev_D40 :
     let t := Seg.node "table_reference" [Seg.leaf "identifier" "s", Seg.leaf "symbol" ".", Seg.leaf "identifier" "t"]
     let ns : Nat → List Noise := fun i => if i == 2 then [⟨.whitespace, " "⟩] else []
     tablePartsRaw t = (["s"], "t") ∧ tablePartsRaw (insertNoise ns t) = (["s"], " ") ∧
